@@ -92,6 +92,32 @@ Definition opt_pat (a b : option ustring) : bool :=
 
 Inductive target := TId (t : id) | TProps (ps : list prop) (deny : bool).
 
+Fixpoint nodup_ustr (l : list ustring) : bool :=
+  match l with
+  | [] => true
+  | x :: r => negb (mem_ustr x r) && nodup_ustr r
+  end.
+
+(* the schema {"type":"null"} (other keywords allowed, but no "$ref", whose
+   siblings draft-07 ignores) *)
+Definition null_only (b : schema) : bool :=
+  match b with
+  | SObj (Some [TNull]) _ _ _ _ _ _ _ _ _ _ _ _ _ _ _ _ _ _ _ _ None _ _ => true
+  | _ => false
+  end.
+
+(* the two kinds of transparent wrappers of the type side *)
+Definition wrapper_of (d : details) : option id :=
+  match d with
+  | DBox t' => Some t'
+  | DNewtype _ _ t' CNone => Some t'
+  | _ => None
+  end.
+Definition option_of (d : details) : option id :=
+  match d with DOption t' => Some t' | _ => None end.
+Definition is_json_value (d : details) : bool :=
+  match d with DJsonValue => true | _ => false end.
+
 Section Covers.
   Variable re_match : ustring -> ustring -> bool.
   Variable native_ok : ustring -> ustring -> bool.
@@ -113,7 +139,6 @@ Section Covers.
   Definition missing_ok (p : prop) : bool :=
     is_some (missing T (de re_match native_ok T DFUEL) (default_val T DFUEL) p).
 
-  (* the schema declares a property under this wire name *)
   Definition flat_map_value (ps : list prop) : option (option id) :=
     (* None = ill-formed; Some None = no flattened member; Some (Some v) = map of v *)
     match flat_props ps with
@@ -134,78 +159,168 @@ Section Covers.
                 end
     end.
 
-  Fixpoint covers (s : schema) {struct s} : bool -> target -> bool :=
-    match s with
-    | SBool false => fun _ _ => true
-    | SBool true => fun _ tg => match tg with TId t => accepts_any FT t | TProps _ _ => false end
-    | SObj ty fmt enum cst nv sv ik items ai mni mxi uq props req ap mnp mxp allo anyo oneo no ref dflt title =>
-        let cov_list := fix cov_list (ss : list schema) (ts : list id) {struct ss} : bool :=
-                          match ss, ts with
-                          | [], [] => true
-                          | s' :: ss', t' :: ts' => covers s' false (TId t') && cov_list ss' ts'
-                          | _, _ => false
-                          end in
-        (* a branch of oneOf/anyOf against an untagged enum: some variant takes it *)
-        let branch_ok := fun (nn : bool) (vs : list variant) (deny : bool) =>
-          fix branches (bs : list schema) : bool :=
-            match bs with
-            | [] => true
-            | b :: bs' =>
-                existsb (fun v => match v_det v with
-                                  | VItem t' => covers b nn (TId t')
-                                  | VStruct ps => covers b nn (TProps ps deny)
-                                  | VSimple => match b with
-                                               | SObj (Some [TNull]) _ _ _ _ _ _ _ _ _ _ _ _ _ _ _ _ _ _ _ _ None _ _ => true
-                                               | _ => false
-                                               end
-                                  | _ => false
-                                  end) vs
-                && branches bs'
-            end in
-        let branch_nn := fun (t' : id) =>
-          fix branches (bs : list schema) : bool :=
-            match bs with
-            | [] => true
-            | b :: bs' => covers b true (TId t') && branches bs'
-            end in
-        let struct_case := fun (nn : bool) (ps : list prop) (deny : bool) =>
-                          ty_is nn ty [TObject]
-                          (* every declared property is a struct member whose type covers it and
-                             which may be absent only if the type side has a rule for absence *)
-                          && (fix pr (l : list (ustring * schema)) : bool :=
-                                match l with
-                                | [] => true
-                                | (k, sp) :: l' =>
-                                    match find_prop_by_wire k ps with
-                                    | Some p => covers sp false (TId (p_ty p)) && (mem_ustr k req || missing_ok p)
-                                    | None => false
-                                    end && pr l'
-                                end) props
-                          (* every non-flattened struct member is declared by the schema *)
-                          && forallb (fun p => match wire_name p with
-                                               | None => true
-                                               | Some w => has_key w props
-                                               end) ps
-                          && match flat_map_value ps with
-                             | None => false
-                             | Some None =>
-                                 negb deny || match ap with Some (SBool false) => true | _ => false end
-                             | Some (Some vt) =>
-                                 negb deny &&
-                                 match ap with
-                                 | Some sa => covers sa false (TId vt)
-                                 | None => accepts_any FT vt
-                                 end
-                             end in
-        fun nn0 tg =>
-        match tg with
-        | TProps ps deny =>
-            match ref, anyo, oneo, allo, no with
-            | None, None, None, None, None => struct_case nn0 ps deny
-            | _, _, _, _, _ => false
+  (* One schema node against a target, the verdicts on the children being given
+     by [cov] (open recursion: [covers] below ties the knot; the soundness proof
+     reasons about one node at a time). *)
+  Section Node.
+    Variable cov : schema -> bool -> target -> bool.
+
+    Definition cov_list : list schema -> list id -> bool :=
+      fix cov_list (ss : list schema) (ts : list id) {struct ss} : bool :=
+        match ss, ts with
+        | [], [] => true
+        | s' :: ss', t' :: ts' => cov s' false (TId t') && cov_list ss' ts'
+        | _, _ => false
+        end.
+
+    (* a branch [b] of oneOf/anyOf against one variant of an untagged enum *)
+    Definition variant_ok (b : schema) (nn deny : bool) (v : variant) : bool :=
+      match v_det v with
+      | VItem t' => cov b nn (TId t')
+      | VStruct ps => cov b nn (TProps ps deny)
+      | VSimple => null_only b
+      | VTuple _ => false
+      end.
+
+    Section Obj.
+      Variable ty : option (list itype).
+      Variable fmt : option ustring.
+      Variable enum : option (list json).
+      Variable cst : option json.
+      Variable nv : numv.
+      Variable sv : strv.
+      Variable ik : items_kind.
+      Variable items : list schema.
+      Variable mni mxi : option N.
+      Variable props : list (ustring * schema).
+      Variable req : list ustring.
+      Variable ap : option schema.
+      Variable allo anyo oneo : option (list schema).
+      Variable no : option schema.
+      Variable ref : option ustring.
+
+      (* array element schema against the element type *)
+      Definition elem_ok (t' : id) : bool :=
+        match ik, items with
+        | ItemsSingle, [s'] => cov s' false (TId t')
+        | ItemsAbsent, _ => accepts_any FT t'
+        | _, _ => false
+        end.
+
+      (* additionalProperties against the value type of a map *)
+      Definition addl_ok (vt : id) : bool :=
+        match ap with
+        | Some sa => cov sa false (TId vt)
+        | None => accepts_any FT vt
+        end.
+
+      (* every declared property is a struct member whose type covers it and
+         which may be absent only if the type side has a rule for absence *)
+      Definition props_ok (ps : list prop) : bool :=
+        forallb (fun kv => match find_prop_by_wire (fst kv) ps with
+                           | Some p => cov (snd kv) false (TId (p_ty p))
+                                       && (mem_ustr (fst kv) req || missing_ok p)
+                           | None => false
+                           end) props.
+
+      Definition struct_case (nn : bool) (ps : list prop) (deny : bool) : bool :=
+        ty_is nn ty [TObject]
+        && nodup_ustr (wire_names ps)             (* wire names are distinct *)
+        && props_ok ps
+        (* every non-flattened struct member is declared by the schema *)
+        && forallb (fun p => match wire_name p with
+                             | None => true
+                             | Some w => has_key w props
+                             end) ps
+        && match flat_map_value ps with
+           | None => false
+           | Some None =>
+               negb deny || match ap with Some (SBool false) => true | _ => false end
+           | Some (Some vt) => negb deny && addl_ok vt
+           end.
+
+      (* no union, no allOf/not, no "$ref"; the type is not a wrapper/Option *)
+      Definition leaf_ok (nn : bool) (d : details) : bool :=
+        match d with
+        | DBoolean => ty_is nn ty [TBoolean]
+        | DString => ty_is nn ty [TString]
+        | DUnit => negb nn && ty_is false ty [TNull]
+        | DFloat _ => ty_is nn ty [TNumber; TInteger]
+        | DInteger name =>
+            ty_is nn ty [TInteger] &&
+            match int_range_u name with
+            | Some (lo, hi, _) => lower_ok lo fmt nv && upper_ok hi fmt nv
+            | None => false
             end
-        | TId t0 =>
-        (fix go (ft : nat) (nn : bool) (t : id) {struct ft} : bool :=
+        | DNewtype _ _ inner (CString mx mn pat) =>
+            ty_is nn ty [TString]
+            && match get_det T inner with Some DString => true | _ => false end
+            && opt_le (s_max_length sv) mx && opt_ge (s_min_length sv) mn
+            && opt_pat (s_pattern sv) pat
+        | DNative name _ ps =>
+            ty_is nn ty [TString]
+            && match ps with [] => true | _ => false end
+            && match fmt with
+               | Some f => existsb (fun e => ustr_eqb f (fst e) && ustr_eqb name (snd e))
+                                   format_native_table
+               | None => false
+               end
+        | DEnum _ _ TagExternal vs _ _ =>
+            ty_is nn ty [TString] &&
+            match enum with
+            | Some es =>
+                forallb (fun e => match e with
+                                  | JStr x =>
+                                      match find_variant x vs 0 with
+                                      | Some (_, v) => match v_det v with VSimple => true | _ => false end
+                                      | None => false
+                                      end
+                                  | _ => false
+                                  end) es
+            | None => false
+            end
+        | DVec t' | DSet t' => ty_is nn ty [TArray] && elem_ok t'
+        | DArray t' n =>
+            ty_is nn ty [TArray] &&
+            match mni, mxi with
+            | Some a, Some b => N.eqb a n && N.eqb b n
+            | _, _ => false
+            end &&
+            elem_ok t'
+        | DTuple ts =>
+            ty_is nn ty [TArray] &&
+            match ik with ItemsTuple => true | _ => false end &&
+            match mni, mxi with
+            | Some a, Some b => N.eqb a (N.of_nat (length ts)) && N.eqb b (N.of_nat (length ts))
+            | _, _ => false
+            end &&
+            cov_list items ts
+        | DMap k vt =>
+            ty_is nn ty [TObject]
+            && match get_det T k with Some DString => true | _ => false end
+            && match props with [] => true | _ => false end
+            && addl_ok vt
+        | DStruct _ _ ps deny => struct_case nn ps deny
+        | _ => false
+        end.
+
+      (* pure union (no other assertion keyword beside anyOf/oneOf = [bs]) *)
+      Definition union_ok (nn : bool) (d : details) (bs : list schema) : bool :=
+        match ty, enum, cst, allo, no with
+        | None, None, None, None, None =>
+            match d with
+            | DOption t' => forallb (fun b => cov b true (TId t')) bs
+            | DEnum _ _ TagUntagged vs deny _ =>
+                (* every branch is taken by some variant *)
+                forallb (fun b => existsb (variant_ok b nn deny) vs) bs
+            | _ => false
+            end
+        | _, _, _, _, _ => false
+        end.
+
+      (* [ft] bounds the unfolding of wrappers (Box, plain newtype, Option) *)
+      Definition go : nat -> bool -> id -> bool :=
+        fix go (ft : nat) (nn : bool) (t : id) {struct ft} : bool :=
           match ft with
           | O => false
           | S ft' =>
@@ -213,118 +328,54 @@ Section Covers.
           | None => false
           | Some d =>
               if match ref with Some r => mem_pair r t | None => false end then true else
-              if vacuous nn ty then true else
-              match d with
-              | DJsonValue => true
-              | DBox t' => go ft' nn t'
-              | DNewtype _ _ t' CNone => go ft' nn t'
-              | _ =>
+              (* draft-07: the siblings of "$ref" (here "type") are ignored *)
+              if match ref with None => vacuous nn ty | Some _ => false end then true else
+              if is_json_value d then true else
+              match wrapper_of d with
+              | Some t' => go ft' nn t'
+              | None =>
                 match ref with
-                | Some r => match d with
-                            | DOption t' => go ft' true t'
-                            | _ => false
+                | Some _ => match option_of d with
+                            | Some t' => go ft' true t'
+                            | None => false
                             end
                 | None =>
                   match anyo, oneo with
-                  | Some bs, None | None, Some bs =>
-                      (* pure union: no other assertion keyword beside it *)
-                      match ty, enum, cst, allo, no with
-                      | None, None, None, None, None =>
-                          match d with
-                          | DOption t' => branch_nn t' bs
-                          | DEnum _ _ TagUntagged vs deny _ => branch_ok nn vs deny bs
-                          | _ => false
-                          end
-                      | _, _, _, _, _ => false
-                      end
+                  | Some bs, None | None, Some bs => union_ok nn d bs
                   | Some _, Some _ => false
                   | None, None =>
                     match allo, no with
                     | None, None =>
-                      match d with
-                      | DOption t' => go ft' true t'
-                      | DBoolean => ty_is nn ty [TBoolean]
-                      | DString => ty_is nn ty [TString]
-                      | DUnit => negb nn && ty_is false ty [TNull]
-                      | DFloat _ => ty_is nn ty [TNumber; TInteger]
-                      | DInteger name =>
-                          ty_is nn ty [TInteger] &&
-                          match int_range_u name with
-                          | Some (lo, hi, _) => lower_ok lo fmt nv && upper_ok hi fmt nv
-                          | None => false
-                          end
-                      | DNewtype _ _ inner (CString mx mn pat) =>
-                          ty_is nn ty [TString]
-                          && match get_det T inner with Some DString => true | _ => false end
-                          && opt_le (s_max_length sv) mx && opt_ge (s_min_length sv) mn
-                          && opt_pat (s_pattern sv) pat
-                      | DNative name _ ps =>
-                          ty_is nn ty [TString]
-                          && match ps with [] => true | _ => false end
-                          && match fmt with
-                             | Some f => existsb (fun e => ustr_eqb f (fst e) && ustr_eqb name (snd e))
-                                                 format_native_table
-                             | None => false
-                             end
-                      | DEnum _ _ TagExternal vs _ _ =>
-                          ty_is nn ty [TString] &&
-                          match enum with
-                          | Some es =>
-                              forallb (fun e => match e with
-                                                | JStr x =>
-                                                    match find_variant x vs 0 with
-                                                    | Some (_, v) => match v_det v with VSimple => true | _ => false end
-                                                    | None => false
-                                                    end
-                                                | _ => false
-                                                end) es
-                          | None => false
-                          end
-                      | DVec t' | DSet t' =>
-                          ty_is nn ty [TArray] &&
-                          match ik, items with
-                          | ItemsSingle, [s'] => covers s' false (TId t')
-                          | ItemsAbsent, _ => accepts_any FT t'
-                          | _, _ => false
-                          end
-                      | DArray t' n =>
-                          ty_is nn ty [TArray] &&
-                          match mni, mxi with
-                          | Some a, Some b => N.eqb a n && N.eqb b n
-                          | _, _ => false
-                          end &&
-                          match ik, items with
-                          | ItemsSingle, [s'] => covers s' false (TId t')
-                          | ItemsAbsent, _ => accepts_any FT t'
-                          | _, _ => false
-                          end
-                      | DTuple ts =>
-                          ty_is nn ty [TArray] &&
-                          match ik with ItemsTuple => true | _ => false end &&
-                          match mni, mxi with
-                          | Some a, Some b => N.eqb a (N.of_nat (length ts)) && N.eqb b (N.of_nat (length ts))
-                          | _, _ => false
-                          end &&
-                          cov_list items ts
-                      | DMap k vt =>
-                          ty_is nn ty [TObject]
-                          && match get_det T k with Some DString => true | _ => false end
-                          && match props with [] => true | _ => false end
-                          && match ap with
-                             | Some sa => covers sa false (TId vt)
-                             | None => accepts_any FT vt
-                             end
-                      | DStruct _ _ ps deny => struct_case nn ps deny
-                      | _ => false
-                      end
+                        match option_of d with
+                        | Some t' => go ft' true t'
+                        | None => leaf_ok nn d
+                        end
                     | _, _ => false
                     end
                   end
                 end
               end
           end
-          end) FT nn0 t0
-        end
+          end.
+
+      Definition covers_obj (nn0 : bool) (tg : target) : bool :=
+        match tg with
+        | TProps ps deny =>
+            match ref, anyo, oneo, allo, no with
+            | None, None, None, None, None => struct_case nn0 ps deny
+            | _, _, _, _, _ => false
+            end
+        | TId t0 => go FT nn0 t0
+        end.
+    End Obj.
+  End Node.
+
+  Fixpoint covers (s : schema) {struct s} : bool -> target -> bool :=
+    match s with
+    | SBool false => fun _ _ => true
+    | SBool true => fun _ tg => match tg with TId t => accepts_any FT t | TProps _ _ => false end
+    | SObj ty fmt enum cst nv sv ik items ai mni mxi uq props req ap mnp mxp allo anyo oneo no ref dflt title =>
+        covers_obj covers ty fmt enum cst nv sv ik items mni mxi props req ap allo anyo oneo no ref
     end.
 
 End Covers.
